@@ -93,6 +93,8 @@ def pool():
 # --------------------------------------------------------------------------- realisation
 def real_dense(node):
     v = np.random.default_rng(int(node["seed"])).integers(-8, 9, int(node["n"])) / 4.0
+    if int(node["seed"]) % 3 == 0:
+        v = np.round(v * 4.0)           # integer-valued data (index-like / count arrays)
     for i, val in node.get("set", []):
         v[int(i)] = float(val)
     return v
@@ -221,7 +223,13 @@ def build(node, variant=0):
             return pp.ad.Scalar(int(v))
         return pp.ad.Scalar(v)
     if k == "dense":
-        return pp.ad.DenseArray(real_dense(node).copy())
+        v = real_dense(node).copy()
+        if variant:
+            # the same data handed over in another equal-valued representation
+            if np.all(v == np.round(v)):
+                return pp.ad.DenseArray(v.astype(np.int64))
+            return pp.ad.DenseArray(np.repeat(v, 2)[::2])       # non-contiguous view
+        return pp.ad.DenseArray(v)
     if k == "sparse":
         return pp.ad.SparseArray(_sparse(node))
     if k == "var":
